@@ -256,7 +256,9 @@ def diff_loc(dfs, new, window=None):
         mx = max(df.index.max() for df in dfs)
         mn = mx - pd.Timedelta(window) + pd.Timedelta('1ns')
         while pd.Timestamp(dfs[0].index.min()) < mn:
-            o = dfs[0].loc[:mn]
+            # .loc slices include their end point: the row at mn itself is
+            # the oldest one still inside the window
+            o = dfs[0].loc[:mn - pd.Timedelta('1ns')]
             if len(old) > 0:
                 old.append(o)
             else:
